@@ -1,6 +1,7 @@
 // C16 conformance driver: performs every view operation on real tensors whose buffer holds its own flat indices and
 // records (offset, dimensions, elements read through the view) for re-computation by TLC (TensorTrace.tla).
 //   tensor_driver <out.ndjson> <seed> <maxdim-rank4> <maxdim-rank5> <random-cases>
+#include <algorithm>
 #include "trace.h"
 #include <nano/tensor.h>
 #include <nano/tensor/algorithm.h>
@@ -255,7 +256,22 @@ void shape_case(const tensor_dims_t<trank>& dims, vt::Rng& rng, bool exhaustive)
         tensor_cmap_t<tscalar, trank> cmap2 = map;
         tensor_mem_t<tscalar, trank>  copy = cmap;
         tensor_mem_t<tscalar, trank>  copy2 = map;
-        bool same = copy.dims() == dims && copy2.dims() == dims;
+        // ... also into owners that are already in use: with the same number of elements in another shape, and of another size
+        auto rdims = dims;
+        std::reverse(rdims.begin(), rdims.end());
+        auto fdims = dims;
+        fdims.fill(1);
+        fdims[trank - 1] = std::max<tensor_size_t>(1, root.size());
+        tensor_mem_t<tscalar, trank> used1(rdims), used2(rdims), used3(fdims), used4(fdims);
+        used1 = cmap;
+        used2 = map;
+        used3 = cmap;
+        used4 = map;
+        bool same = copy.dims() == dims && copy2.dims() == dims && used1.dims() == dims && used2.dims() == dims && used3.dims() == dims && used4.dims() == dims;
+        for (tensor_size_t i = 0; same && i < root.size(); ++i)
+        {
+            same = used1(i) == root(i) && used2(i) == root(i) && used3(i) == root(i) && used4(i) == root(i);
+        }
         for (tensor_size_t i = 0; same && i < root.size(); ++i)
         {
             same = copy(i) == root(i) && copy2(i) == root(i) && map(i) == root(i) && cmap(i) == root(i) && cmap2(i) == root(i);
